@@ -6,7 +6,7 @@ from ..front import norm, walk_no_nested
 from ..symeval import SymEval, is_const, show
 from . import shared as SH
 from . import tablerules as TR
-from .util import subterms
+from .util import guard_text, leaves, subterms
 
 META = {
     "explanation": (
@@ -308,3 +308,163 @@ def run(eng, ctx):
                 appends = [e]  # a list comprehension over the range yields one entry per index, in order
             ctx.check(len(appends) == 1, "C18.D6", pm.qualname, f"{counter} loop appends once per index", expected="one append per iteration", found=f"{len(appends)} append(s)", **eng.loc(pm, e.node))
             ctx.check(counter in facts["derived_counters"], "C18.D6", pm.qualname, f"{counter} is a decoder-derived counter", expected="stored by the decoder", found=str(sorted(facts["derived_counters"])), **eng.loc(pm, e.node))
+
+    _structure_msm(eng, ctx, pm, se, msgp, probes, nsat, ncell, gnssmap)
+    _structure_harmonics(eng, ctx, ph, sh, mp, facts, coeffs)
+
+
+def _fresh(t, kind):
+    return isinstance(t, tuple) and t and t[0] == kind and (kind == "list" and not t[1] or kind == "dict")
+
+
+def _upd_items(t):
+    """key term -> value term of a dict built by a display and / or a chain of item stores; None if the base is not a fresh display."""
+    items = {}
+    chain = []
+    while t[0] == "upd":
+        chain.append((t[2], t[3]))
+        t = t[1]
+    if t[0] != "dict":
+        return None
+    for k, v in zip(t[1], t[2]):
+        items[k] = v
+    for k, v in reversed(chain):
+        items[k] = v
+    return items
+
+
+def _structure_msm(eng, ctx, pm, se, msgp, probes, nsat, ncell, gnssmap):
+    from .util import atomize
+
+    ctx.rule("C18.D8", "parse_msm returns (metadata, satellite entries, cell entries): metadata['epoch'] = getattr(msg, GNSSMAP[identity[0:3]][1]); the second / third "
+                       "component is the list built by the NSat / NCell probe loop (one fresh dict per index, appended once, or a comprehension over the range); "
+                       "an entry holds attr -> getattr(msg, NAME) exactly when hasattr(msg, NAME) for the same NAME")
+    loc = eng.loc(pm, pm.node)
+    rets = [e for e in se.effects if e.kind == "return" and not (is_const(e.term) and e.term[1] is None)]
+    ctx.check(len(rets) == 1 and rets[0].term[0] == "tuple" and len(rets[0].term[1]) == 3 and not rets[0].loops, "C18.D8", pm.qualname, "result", expected="one return of a 3-tuple", found=", ".join(show(e.term)[:40] for e in rets) or "no data return", **loc)
+    if not (len(rets) == 1 and rets[0].term[0] == "tuple" and len(rets[0].term[1]) == 3):
+        return
+    meta, S, C = rets[0].term[1]
+    items = _upd_items(meta)
+    ep = items.get(("const", "epoch")) if items is not None else None
+    okep = (ep is not None and ep[0] == "call" and ep[2] == ("builtin", "getattr") and len(ep[3]) == 2 and ep[3][0] == msgp and ep[3][1][0] == "idx" and ep[3][1][2] == ("const", 1)
+            and ep[3][1][1][0] == "idx" and ep[3][1][1][1][0] == "gval" and ep[3][1][1][1][1].v is gnssmap
+            and ep[3][1][1][2][0] == "slice" and ep[3][1][1][2][1] == ("attr", msgp, "identity") and ep[3][1][1][2][2] in (("const", 0), ("const", None)) and ep[3][1][1][2][3] == ("const", 3))
+    ctx.check(bool(okep), "C18.D8", pm.qualname, "metadata epoch", expected="meta['epoch'] = getattr(msg, GNSSMAP[msg.identity[0:3]][1]) in the returned metadata", found=show(ep)[:80] if ep is not None else ("no 'epoch' entry" if items is not None else show(meta)[:60]), **eng.loc(pm, rets[0].node))
+    for pos, T, counter, label in ((1, S, nsat, "satellite"), (2, C, ncell, "cell")):
+        if counter not in probes:
+            continue  # reported by D1
+        names, sep, spec, eg, rargs = probes[counter]
+        if len(eg.loops) != 2:
+            ctx.undecided("C18.D8", pm.qualname, f"{label} entries", detail=f"probe nested in {len(eg.loops)} loop level(s): a shape this rule does not follow", **eng.loc(pm, eg.node))
+            continue
+        outer, inner = eg.loops
+        name_term = eg.term[3][1]
+        attr_elem = name_term[1][0][1]
+        # the entry dict: one item store per probed attribute
+        sets = [e for e in se.effects if e.kind == "setitem" and e.loops == eg.loops and e.term == eg.term]
+        ok1 = len(sets) == 1 and sets[0].target[0] == "item" and sets[0].target[2] == attr_elem and sets[0].target[1][0] == "loop" and sets[0].target[1][1] == inner
+        ctx.check(ok1, "C18.D8", pm.qualname, f"{label} entry store", expected="entry[attr] = getattr(msg, NAME) once per probed attribute, keyed by the attribute name", found="; ".join(f"[{show(e.target[2])[:30]}] = {show(e.term)[:40]}" for e in sets) or "no store of the probed value", **eng.loc(pm, eg.node))
+        if not ok1:
+            continue
+        st = sets[0]
+        dvar = st.target[1][2]
+        has = [(c, pol) for c, pol in st.guards if c[0] == "call" and c[2] == ("builtin", "hasattr") and (c, pol) not in rets[0].guards]
+        okh = len(has) == 1 and has[0][1] and has[0][0][3] == (msgp, name_term)
+        extra = [(c, pol) for c, pol in st.guards if (c, pol) not in has and (c, pol) not in rets[0].guards]
+        ctx.check(okh and not extra, "C18.D8", pm.qualname, f"{label} entry guard", expected="stored exactly when hasattr(msg, NAME) for the same NAME", found=guard_text(st.guards)[:140], **eng.loc(pm, st.node))
+        pre = (se.loop_info.get(inner, {}).get("pre") or {}).get(dvar)
+        ctx.check(pre is not None and pre[0] == "dict" and not pre[1], "C18.D8", pm.qualname, f"{label} entry is a new dict per index", expected="{} created inside the index loop", found=show(pre)[:60] if pre is not None else "-", **eng.loc(pm, st.node))
+        entry = ("loopout", inner, dvar)
+        okc = False
+        if T[0] == "loopout" and T[1] == outer:
+            lvar = T[2]
+            apps = [e for e in se.effects if e.kind == "call" and e.term[2] == ("attr", ("loop", outer, lvar), "append")]
+            lpre = (se.loop_info.get(outer, {}).get("pre") or {}).get(lvar)
+            okc = len(apps) == 1 and apps[0].loops == (outer,) and apps[0].term[3] == (entry,) and lpre is not None and lpre[0] == "list" and not lpre[1] and set(apps[0].guards) <= set(rets[0].guards)
+        elif T[0] == "comp" and T[1] == "ListComp" and T[3] == outer:
+            okc = T[2] == entry
+        ctx.check(okc, "C18.D8", pm.qualname, f"component {pos} of the result", expected=f"the list of {label} entries in index order (one append of the entry per index, or a comprehension over the range)", found=show(T)[:80], **eng.loc(pm, rets[0].node))
+
+
+def _structure_harmonics(eng, ctx, ph, sh, mp, facts, coeffs):
+    from .util import atomize
+
+    ctx.rule("C18.D9", "parse_4076_201: None exactly for other identities; result = the dict filled in the layer loop over range(IDF035 + 1); per layer a dict is stored under the layer "
+                       "number, with the layer height, and per coefficient kind a list that receives getattr(msg, NAME(k)) for k = 1, 2, ... until the attribute is missing")
+    loc = eng.loc(ph, ph.node)
+    ident = ("cmp", "==", ("attr", mp, "identity"), ("const", "4076_201"))
+    rets = [e for e in sh.effects if e.kind == "return"]
+    for e in rets:
+        isnone = is_const(e.term) and e.term[1] is None
+        for conj in e.dnf:
+            vals = dict(atomize(l) for l in conj)
+            ctx.check(vals.get(ident) == (not isnone), "C18.D9", ph.qualname, norm(e.node)[:50], expected="None for identities other than 4076_201, the arrays for 4076_201", found=guard_text(conj)[:80] or "unconditional", **eng.loc(ph, e.node))
+    data = [e for e in rets if not (is_const(e.term) and e.term[1] is None)]
+    if len(data) != 1 or data[0].term[0] != "loopout":
+        ctx.bad("C18.D9", ph.qualname, "result", expected="return of the dict filled in the layer loop", found=", ".join(show(e.term)[:40] for e in data) or "no data return", **loc)
+        return
+    Lo, hv = data[0].term[1], data[0].term[2]
+    lo = sh.loop_info.get(Lo, {})
+    pre = (lo.get("pre") or {}).get(hv)
+    ctx.check(pre is not None and pre[0] == "dict" and not pre[1], "C18.D9", ph.qualname, "result starts empty", expected="{}", found=show(pre)[:40] if pre is not None else "-", **loc)
+    it = lo.get("iter", ("?",))
+    plus1 = facts["count_plus_one"]
+    okit = it[0] == "call" and it[2] == ("builtin", "range") and len(it[3]) == 1 and it[3][0][0] == "bin" and it[3][0][1] == "+" and it[3][0][3] == ("const", 1) and it[3][0][2][0] == "attr" and it[3][0][2][1] == mp and it[3][0][2][2] in plus1
+    ctx.check(okit, "C18.D9", ph.qualname, "layer loop", expected=f"range(msg.<layer counter> + 1) with the counter the decoder treats as count-minus-one ({sorted(plus1)})", found=show(it)[:60], **eng.loc(ph, lo.get("node", ph.node)))
+    lyr = ("elem", it, Lo)
+    # per-layer dict stored under the layer number
+    lstores = [e for e in sh.effects if e.kind == "setitem" and e.loops == (Lo,) and e.target[0] == "item" and e.target[2] == lyr and e.target[1] == ("loop", Lo, hv)]
+    okl = len(lstores) == 1 and lstores[0].term[0] == "dict"
+    ctx.check(okl, "C18.D9", ph.qualname, "layer entry", expected="result[layer] = <new dict> once per layer", found="; ".join(show(e.term)[:40] for e in lstores) or "no store under the layer number", **eng.loc(ph, lo.get("node", ph.node)))
+    # layer height
+    hts = []
+    for e in sh.effects:
+        if e.kind == "setitem" and e.loops == (Lo,) and e.target[2] == ("const", "Layer Height"):
+            hts.append(e.term)
+        if e.kind == "setitem" and e.loops == (Lo,) and e.term[0] == "dict":
+            hts.extend(v for k, v in zip(e.term[1], e.term[2]) if k == ("const", "Layer Height"))
+    d1 = [t for t in hts if t[0] == "call" and t[2] == ("builtin", "getattr") and t[3][0] == mp]
+    ctx.check(len(hts) == 1 and len(d1) == 1, "C18.D9", ph.qualname, "layer height entry", expected="'Layer Height' -> getattr(msg, <height field of this layer>) once per layer", found="; ".join(show(t)[:50] for t in hts) or "no 'Layer Height' entry", **eng.loc(ph, lo.get("node", ph.node)))
+    # coefficient lists and probes
+    inner = [lid for lid, info in sh.loop_info.items() if lid != Lo and info.get("iter") is not None and info["iter"][0] in ("const", "gval", "call") and "values" in show(info["iter"]) or (lid != Lo and is_const(info.get("iter", ("?",))))]
+    probes = [e for e in sh.effects if e.kind == "call" and e.term[2] == ("builtin", "getattr") and len(e.loops) == 3 and e.loops[0] == Lo]
+    ctx.instance("coefficient probes", len(probes), 1)
+    for eg in probes:
+        Lc, Lw = eg.loops[1], eg.loops[2]
+        cel = ("elem", sh.loop_info[Lc].get("iter"), Lc)
+        lsts = [e for e in sh.effects if e.kind == "setitem" and e.loops == (Lo, Lc) and e.target[2] == ("proj", cel, 1) and e.term[0] == "list" and not e.term[1]]
+        ctx.check(len(lsts) == 1, "C18.D9", ph.qualname, "coefficient list", expected="layer[<coefficient kind>] = [] once per kind", found=f"{len(lsts)} store(s) of a new list under the kind's name", **eng.loc(ph, eg.node))
+        apps = [e for e in sh.effects if e.kind == "call" and e.term[2][0] == "attr" and e.term[2][2] == "append" and e.loops == eg.loops]
+        okapp = len(apps) == 1 and apps[0].term[3] == (eg.term,) and not [g for g in apps[0].guards if g not in eg.guards]
+        ctx.check(okapp, "C18.D9", ph.qualname, "probed value appended", expected="<list>.append(getattr(msg, NAME(k))) once per iteration", found="; ".join(show(e.term[3][0])[:40] if e.term[3] else "-" for e in apps) or "no append", **eng.loc(ph, eg.node))
+        # the while loop runs from k = 1 and ends only on the missing attribute
+        lw = sh.loop_info[Lw]
+        tst = lw.get("test")
+        pre_w = lw.get("pre") or {}
+
+        def at_start(t):
+            if is_const(t):
+                return bool(t[1])
+            if t[0] == "not":
+                v = at_start(t[1])
+                return None if v is None else not v
+            if t[0] == "loop" and t[1] == Lw and is_const(pre_w.get(t[2], ("?",))):
+                return bool(pre_w[t[2]][1])
+            return None
+
+        ctx.check(tst is not None and at_start(tst) is True, "C18.D9", ph.qualname, "probe loop entered", expected="loop condition true before the first probe", found=show(tst)[:40] if tst is not None else "?", **eng.loc(ph, lw.get("node", ph.node)))
+        # first index: the last formatted value of NAME is the coefficient index
+        fm = [p for p in eg.term[3][1][1] if p[0] == "fmt"] if eg.term[3][1][0] == "fstr" else []
+        k = fm[-1][1] if fm else None
+        first = None
+        if k is not None:
+            base = k[2] if k[0] == "bin" and k[1] == "+" and is_const(k[3]) else k
+            off = k[3][1] if base is not k else 0
+            if base[0] == "loop" and base[1] == Lw and is_const(pre_w.get(base[2], ("?",))) and isinstance(pre_w[base[2]][1], int):
+                first = pre_w[base[2]][1] + off
+                be = (lw.get("body_end") or {}).get(base[2])
+                steps = [leaf for _, leaf in leaves(be)] if be is not None else []
+                okstep = ("bin", "+", base, ("const", 1)) in steps and all(x in (base, ("bin", "+", base, ("const", 1))) for x in steps)
+                ctx.check(okstep, "C18.D9", ph.qualname, "coefficient index step", expected="index + 1 after each stored coefficient", found="; ".join(show(x)[:30] for x in steps)[:80], **eng.loc(ph, eg.node))
+        ctx.check(first == 1, "C18.D9", ph.qualname, "first coefficient index", expected="1", found=str(first) if first is not None else (show(k)[:40] if k is not None else "-"), **eng.loc(ph, eg.node))
